@@ -602,8 +602,10 @@ func TestVerifC35Core(t *testing.T) {
 	for i := 0; i < nRTSP; i++ {
 		var target string
 		class := "fixed"
-		if i < len(names) {
-			target = "/" + names[i]
+		if i == 0 {
+			target = "" // rtsp://host:port : gortsplib hands over an empty path
+		} else if i <= len(names) {
+			target = "/" + names[i-1]
 		} else {
 			class = "random"
 			b := make([]byte, r.Intn(8))
@@ -633,8 +635,8 @@ func TestVerifC35Core(t *testing.T) {
 
 	// ---- crash oracle ---------------------------------------------------------------------------------------
 	nCrash := n - nRTSP
-	if !thorough && nCrash > 170 {
-		nCrash = 170
+	if !thorough && nCrash > 110 {
+		nCrash = 110
 	}
 	big := 70000
 	if thorough {
